@@ -146,6 +146,7 @@ func v2(v *vault) {
 // share's worth plus one base unit. (TotalValue, supply) range over the configuration set, the
 // deposit and the vault's cash are symbolic and unbounded. The fully symbolic form (symbolic
 // TotalValue and supply) did not close within 300 s on any installed solver and is not registered.
+//
 //vrf:cover bond-ok unbond-ok
 //vrf:bound (TotalValue, supply) in a configuration set of 8 pairs (rates 1, 1.5, 1.000001, 1.333.., 2.333.., 2^30.., 3.333.., 1+1e-18); deposit and cash symbolic, unbounded
 //vrf:assert-ms 300000
@@ -160,6 +161,7 @@ func H_V1_BondThenUnbond() {
 }
 
 // V2: a bond by alice does not reduce what bob's shares redeem for (beyond one share's worth + 1).
+//
 //vrf:cover bond-ok
 //vrf:bound as V1 (configuration set); deposit symbolic, unbounded
 func H_V2_BondDoesNotDiluteOthers() {
@@ -173,6 +175,7 @@ func H_V2_BondDoesNotDiluteOthers() {
 }
 
 // V2u: an unbond by alice does not reduce what bob's remaining shares redeem for.
+//
 //vrf:cover unbond-ok
 //vrf:bound as V1 (configuration set); alice holds a symbolic part of the supply and unbonds a symbolic amount
 func H_V2_UnbondDoesNotDiluteOthers() {
@@ -221,6 +224,7 @@ func H_V2_UnbondDoesNotDiluteOthers() {
 
 // V3: the redemption value of a share never falls because of accrual, repayment or borrowing
 // (supply fixed, TotalValue must not decrease).
+//
 //vrf:cover accrue-ok repay-ok borrow-ok
 //vrf:bound one debt, symbolic times/heights/rate
 func H_V3_RateMonotone() {
@@ -264,6 +268,7 @@ func H_V3_RateMonotone() {
 }
 
 // V4: a successful borrow leaves outstanding loans <= 90% of the vault's value.
+//
 //vrf:cover borrow-ok refused
 //vrf:bound TotalValue, cash, amount unbounded
 func H_V4_BorrowCap() {
@@ -279,4 +284,61 @@ func H_V4_BorrowCap() {
 	}
 	vrf.Cover("borrow-ok")
 	vrf.Assert(outstanding.MulRaw(10).LTE(v.tv.MulRaw(9)), "V4: outstanding loans after a borrow <= 90% of TotalValue")
+}
+
+// V3 over consecutive blocks: a loan taken (or last accrued) in block H0, then the begin blockers of blocks H0+1 and
+// H0+2 (epoch length 1..3, so the rate is recomputed in none, one or both of them; the utilisation may have changed in
+// between because other users repaid or borrowed), then the lazy accrual at H0+2: the interest booked is never negative,
+// so TotalValue (and with it every lender's redemption value) does not fall.
+//
+//vrf:cover accrued recomputed
+//vrf:bound start block H0 symbolic with its interest block stored (cumulative value symbolic >= 0); 2 further blocks; epoch length in [1, 3]; stablestake params symbolic within Params.Validate(); cash after block H0 symbolic (other users' repayments / borrows); one debt
+//vrf:max-paths 4000
+//vrf:assert-ms 60000
+func H_V3_RateMonotone_AcrossBlocks() {
+	v := setup(big(30), big(40))
+	env := v.env
+	h0 := vrf.I64("H0", 3, 1<<40)
+	t0 := vrf.I64("t0", 1000, 1<<40)
+	env.Ctx = vrf.SetBlock(env.Ctx, h0, t0)
+	ctx := env.Ctx
+	p := env.Stable.GetParams(ctx)
+	p.InterestRate, p.InterestRateMax, p.InterestRateMin = vrf.Dec("rate"), vrf.Dec("rateMax"), vrf.Dec("rateMin")
+	p.InterestRateIncrease, p.InterestRateDecrease, p.HealthGainFactor = vrf.Dec("inc"), vrf.Dec("dec"), vrf.Dec("gain")
+	p.EpochLength = vrf.I64("epochLength", 1, 3)
+	vrf.Assume(p.Validate() == nil)
+	vrf.Assume(p.InterestRate.GTE(p.InterestRateMin))
+	vrf.Assume(p.InterestRate.LTE(p.InterestRateMax))
+	env.Stable.SetParams(ctx, p)
+	// the cumulative interest series up to and including H0 (no holes, as every begin blocker so far extended it)
+	cum := vrf.Dec("cumulativeAtH0")
+	vrf.Assume(cum.GTE(p.InterestRate))
+	vrf.Assume(cum.LTE(sdkmath.LegacyNewDec(1 << 40)))
+	env.Stable.SetInterest(ctx, uint64(h0), sstypes.InterestBlock{InterestRate: cum, BlockTime: t0, BlockHeight: uint64(h0)})
+	b := vrf.Int("borrowed")
+	vrf.Assume(b.IsPositive())
+	vrf.Assume(b.LTE(v.tv.Sub(v.cash)))
+	env.Stable.SetDebt(ctx, sstypes.Debt{Address: alice.String(), Borrowed: b, InterestStacked: sdkmath.ZeroInt(), InterestPaid: sdkmath.ZeroInt(),
+		BorrowTime: uint64(t0), LastInterestCalcTime: uint64(t0), LastInterestCalcBlock: uint64(h0)})
+	// block H0+1, after other users moved the utilisation
+	cash1 := vrf.Int("cashAfterH0")
+	vrf.Assume(!cash1.IsNegative())
+	vrf.Assume(cash1.LTE(v.tv))
+	env.W.SetBal(modAddr, usdc, cash1)
+	t1 := vrf.I64("t1", 1000, 1<<40)
+	t2 := vrf.I64("t2", 1000, 1<<40)
+	vrf.Assume(t0 <= t1)
+	vrf.Assume(t1 <= t2)
+	env.Ctx = vrf.SetBlock(env.Ctx, h0+1, t1)
+	env.Stable.BeginBlocker(env.Ctx)
+	env.Ctx = vrf.SetBlock(env.Ctx, h0+2, t2)
+	env.Stable.BeginBlocker(env.Ctx)
+	if !env.Stable.GetParams(env.Ctx).InterestRate.Equal(p.InterestRate) {
+		vrf.Cover("recomputed")
+	}
+	tv := env.Stable.GetParams(env.Ctx).TotalValue
+	d := env.Stable.UpdateInterestAndGetDebt(env.Ctx, alice)
+	vrf.Cover("accrued")
+	vrf.Assert(!d.InterestStacked.IsNegative(), "V3: interest accrued over consecutive blocks is never negative")
+	vrf.Assert(env.Stable.GetParams(env.Ctx).TotalValue.GTE(tv), "V3: TotalValue (hence the share price) never falls through interest accrual across blocks and epochs")
 }
